@@ -55,6 +55,7 @@ ASSUMPTIONS = [
     "where_best is always given p explicitly (p=None is documented as defaulting to full_p but is outside this property's statement)",
     "NaN rewards (learners sub-check only) must propagate into every progressive / final average whose window holds them; they are not combined with a trailing window (1 < span) over x='index', where the running-sum implementation stays NaN after the value has left the window, nor with where_best (ranking NaN means is undefined); +-inf rewards are not generated",
     "evaluations longer than 1024 interactions (1 case in 40, lengths 1025..2100, thorough ..3000, never a multiple of 512) are only combined with x = parameter / id columns (final averages); their rewards come from a compact generator stored in the case",
+    "where_best: how an exact tie between two full_l is resolved is neither documented nor pinned by coba's tests and is not asserted; asserted is that the selection does not depend on the order of the rewards inside the evaluations (twin Results with sorted rewards), whenever n does not cut an evaluation",
     "moving_average: span is None or an int >= 1, explicit weights are positive (0.1..10), 'exp' needs an int span; values within +-100",
 ]
 
@@ -519,6 +520,34 @@ def apply_where(res, cur, op, prefix):
             got={t: len(r) for t, r in out.evals.items()}, want={t: len(r) for t, r in want.items()})
     return new, out
 
+def result_from_model(m, reorder=None):
+    """a fresh Result holding the tables of model m; reorder(list of rewards) -> list permutes the rewards inside every
+    evaluation (index and tag stay in place)"""
+    envs = [["environment_id", *m.env_cols]] + [[i, *[r.get(c) for c in m.env_cols]] for i, r in m.env.items()]
+    lrns = [["learner_id", *m.lrn_cols]] + [[i, *[r.get(c) for c in m.lrn_cols]] for i, r in m.lrn.items()]
+    vals = [["evaluator_id", *m.val_cols]] + [[i, *[r.get(c) for c in m.val_cols]] for i, r in m.val.items()]
+    ints = [["environment_id", "learner_id", "evaluator_id", *m.int_cols]]
+    for t, rows in m.evals.items():
+        ys = [r["reward"] for r in rows]
+        if reorder: ys = reorder(ys)
+        for r, y in zip(rows, ys):
+            ints.append([*t, *[(y if c == "reward" else r.get(c)) for c in m.int_cols]])
+    return Result(envs, lrns, vals, ints)
+
+def check_best_order_independence(cur, args, what):
+    """where_best ranks by average reward, so which evaluations it keeps may not depend on the ORDER of the rewards inside
+    an evaluation (how an exact tie is resolved is not documented and not asserted; that it is resolved the same way for
+    permuted rewards is). Two fresh twins of the current tables: rewards as they are / sorted ascending."""
+    if any(r["reward"] != r["reward"] for rows in cur.evals.values() for r in rows) or "reward" not in cur.int_cols:
+        return
+    kept = []
+    for reorder in (None, sorted):
+        twin = result_from_model(cur, reorder)
+        kept.append(set(read_result(twin.where_best(*args), what + " (twin)").evals))
+    require(kept[0] == kept[1], f"{what}: the kept evaluations change when the rewards inside the evaluations are sorted "
+            "(same averages, different order)", kept_as_is=sorted(kept[0]), kept_sorted=sorted(kept[1]),
+            rewards={str(t): [r["reward"] for r in rows] for t, rows in cur.evals.items()})
+
 def apply_step(res, cur, op, step):
     """one where / where_fin / where_best call on the real Result, judged against the tables read before it.
     Returns (new Result, its tables as a Model) or None when the step names a column that does not exist."""
@@ -556,6 +585,8 @@ def apply_step(res, cur, op, step):
         best = max(v[0] for v in cands.values())
         require(close(mu, best), f"{what}: (p,l)={key} kept full_l={kept[0]!r} with mean {mu}, the best is {best}",
                 candidates={k: v[0] for k, v in cands.items()})
+    if n is None or all(len(r) <= n for r in cur.evals.values()):     # with a real prefix the order matters by definition
+        check_best_order_independence(cur, (l, p, "reward", n, full_l, full_p), what)
     return new, out
 
 def run_steps(res, cur, ops):
@@ -584,6 +615,13 @@ def draw_where(draw):
 def chain_cases(draw, tier):
     best = draw(st.sampled_from([False, False, False, False, False, "lrn", "lrn", "val"]))
     case = draw_result(draw, tier, best=best)
+    if best == "lrn" and chance(draw, 1, 2):
+        # every evaluation holds the same rewards in another order: exactly equal averages, usually not representable
+        base = [draw(st.sampled_from([0, 1, 0, 2, 1])) for _ in range(draw(st.sampled_from([3, 3, 6, 7, 5])))]
+        if len(set(base)) == 1: base[-1] = base[0] + 1
+        for e in case["evals"]:
+            if e[3]: e[3] = list(draw(st.permutations(base)))
+        case["perm"] = True
     ops = []
     for i in range(draw(st.sampled_from([1, 2, 2, 3, 3, 4]))):
         kind = draw(st.sampled_from(["where", "where", "fin", "fin", "best"]))
@@ -620,6 +658,7 @@ def chain_nontrivial(case):
 def chain_classes(case):
     kinds = [o[0] for o in case["ops"]]
     out = [f"steps={len(kinds)}"]
+    if case.get("perm"): out.append("best-over-permuted-rewards(exact-ties)")
     if kinds[0] == "best":
         m = model_of_case(case)
         _, l, p, n, full_l, full_p = case["ops"][0]
